@@ -2,6 +2,7 @@ package main
 
 import (
 	"bytes"
+	"context"
 	"fmt"
 	"os"
 	"strings"
@@ -62,6 +63,10 @@ func runC04(ctx *Ctx) *Report {
 				c.DocText = docText(doc)
 				c.Tree = encForest(f)
 				cases = append(cases, c)
+				if len(f) > 1 || len(cases)%3 == 0 {
+					c.Mode = "batch" // the path that does not use the iterator
+					cases = append(cases, c)
+				}
 			}
 			if len(f) == 1 {
 				c := newCase("rootf")
@@ -114,6 +119,71 @@ func runC04(ctx *Ctx) *Report {
 					rep.Count("massive-slow-writer:" + op)
 				}
 			}
+		}
+	}
+	// the same root encoded again after nodes were added at several depths: the output follows the tree
+	{
+		m := NewModel()
+		defer m.Close()
+		k := 0
+		enumForests(4, []string{"a", "b"}, func(f []*Tree) {
+			k++
+			if k%2 != 0 {
+				return
+			}
+			t := addMirror(&Tree{Name: "r", Kids: f}) // what Add builds: equally named siblings are one node
+			root := buildRoot(t)
+			format := []string{"json", "yaml", "toml"}[k%3]
+			var diffs []Diff
+			enc := func() string {
+				var buf bytes.Buffer
+				err := gtree.OutputFromRoot(&buf, root, encodeOpt(format))
+				nodes, derr := decodeFormatted(format, buf.Bytes())
+				if derr != nil {
+					return "decode-error:" + derr.Error()
+				}
+				return "f=" + showFNodes(nodes) + " e=" + classify(err)
+			}
+			diffs = append(diffs, cmp("first encoding", enc(), m.Ask("rootf "+addMirror(t).Enc()))...)
+			// add below the deepest first child, and at the root
+			n, tn := root, t
+			for len(tn.Kids) > 0 {
+				n, tn = n.Add(tn.Kids[0].Name), tn.Kids[0]
+			}
+			n.Add("deep-late")
+			tn.Kids = append(tn.Kids, &Tree{Name: "deep-late"})
+			diffs = append(diffs, cmp("encoding after an Add below a non-root node", enc(), m.Ask("rootf "+addMirror(t).Enc()))...)
+			root.Add("top-late")
+			t.Kids = append(t.Kids, &Tree{Name: "top-late"})
+			diffs = append(diffs, cmp("encoding after an Add at the root", enc(), m.Ask("rootf "+addMirror(t).Enc()))...)
+			rep.Record(map[string]any{"kind": "encode-again", "tree": t.Enc(), "format": format}, "encode-again:"+fmtInt(k), true, diffs)
+			rep.Count("encode-again:" + format)
+		})
+	}
+	// an encoded massive output after one whose writer failed: nothing of the failed call shows up
+	{
+		var roots []*Tree
+		for i := 0; i < 6; i++ {
+			roots = append(roots, &Tree{Name: "p" + fmtInt(i), Kids: []*Tree{{Name: "q", Kids: []*Tree{{Name: "r"}}}}})
+		}
+		doc := spell(roots, plainSpelling)
+		for s := 0; s < 6; s++ {
+			format := []string{"json", "yaml"}[s%2]
+			fw := &faultWriter{failAt: s % 3}
+			gtree.OutputFromMarkdown(fw, bytes.NewReader(doc), encodeOpt(format), gtree.WithMassive(context.Background()))
+			fw.markReturned()
+			var diffs []Diff
+			for again := 0; again < 3; again++ {
+				var lb lockedBuf
+				f2 := []string{"json", "yaml"}[(s+again)%2]
+				err := gtree.OutputFromMarkdown(&lb, bytes.NewReader(doc), encodeOpt(f2), gtree.WithMassive(context.Background()))
+				nodes, derr := decodeFormatted(f2, lb.finish())
+				if err != nil || derr != nil || len(nodes) != len(roots) {
+					diffs = append(diffs, Diff{What: "massive " + f2 + " output after a massive " + format + " output whose writer failed", Real: fmt.Sprintf("err=%v decode=%v roots=%d raw=%s", err, derr, len(nodes), hx(lb.finish())), Model: fmt.Sprintf("%d roots, no error", len(roots))})
+				}
+			}
+			rep.Record(map[string]any{"kind": "encode-after-failed-write", "s": s}, "after-failed:"+fmtInt(s), true, diffs)
+			rep.Count("encode-after-failed-write")
 		}
 	}
 	// the command line selects the same encoders: `gtree output --format F`, alone and together with every other
